@@ -149,6 +149,43 @@ Proof.
       intros q Hq. apply in_drop_peer in Hq. apply A2. tauto.
 Qed.
 
+(* a remembered id that pending_outbound no longer lists is not owed by the transport: it can be
+   replaced by a fresh request, or forgotten *)
+Lemma SB_new_stale s s' p d v :
+  SB s -> wq (ps s p) = Some d -> pend_find d (pend s) = None -> ps_at s s' p v -> wq v = Some (nsid s) ->
+  pend s' = pend_insert (nsid s) p (pend s) -> spend s' = spend s ++ [(nsid s, p)] ->
+  nsid s' = nsid s + 1 -> SB s'.
+Proof.
+  intros [B1 B2] Wp Pn PA Wv P S N0. split; rewrite ?P, ?S, ?N0.
+  - intros y q H. apply in_app_or in H. destruct H as [H|[H|[]]].
+    + destruct (B1 y q H) as (A1 & A2 & A3). rewrite PA.
+      rewrite pend_find_insert_other by lia. destruct (q =? p) eqn:E.
+      * apply N.eqb_eq in E. subst q. congruence.
+      * repeat split; auto. lia.
+    + inversion H; subst. rewrite PA, N.eqb_refl, pend_find_insert_same. repeat split; auto. lia.
+  - intros r y H. rewrite PA in H. destruct (r =? p) eqn:E.
+    + apply N.eqb_eq in E. subst r. rewrite Wv in H. inversion H; subst. split; [lia|].
+      intros q Hq. apply in_app_or in Hq. destruct Hq as [Hq|[Hq|[]]].
+      * destruct (B1 _ _ Hq). lia.
+      * inversion Hq; auto.
+    + destruct (B2 r y H) as [A1 A2]. split; [lia|].
+      intros q Hq. apply in_app_or in Hq. destruct Hq as [Hq|[Hq|[]]]; auto.
+      inversion Hq; subst. lia.
+Qed.
+
+Lemma SB_forget s s' p d v :
+  SB s -> wq (ps s p) = Some d -> pend_find d (pend s) = None -> ps_at s s' p v -> wq v = None ->
+  pend s' = pend s -> spend s' = spend s -> nsid s <= nsid s' -> SB s'.
+Proof.
+  intros [B1 B2] Wp Pn PA Wv P S N0. split; rewrite ?P, ?S.
+  - intros y q H. destruct (B1 y q H) as (A1 & A2 & A3). rewrite PA. destruct (q =? p) eqn:E.
+    + apply N.eqb_eq in E. subst q. congruence.
+    + repeat split; auto. lia.
+  - intros r y H. rewrite PA in H. destruct (r =? p) eqn:E.
+    + rewrite Wv in H. discriminate.
+    + destruct (B2 r y H) as [A1 A2]. split; auto. lia.
+Qed.
+
 Ltac wq_close :=
   let q := fresh "q" in intro q; setters; unfold upd;
   repeat (match goal with |- context [q =? ?p] => let E := fresh "E" in destruct (q =? p) eqn:E; [apply N.eqb_eq in E; subst q|] end);
@@ -190,7 +227,14 @@ Ltac SB_answer_close B :=
     eapply (SB_answer s _ p x _ B);
     [apply first_req_in; exact Hf | psat_close | first [left; reflexivity | right; reflexivity]
     | reflexivity | reflexivity | reflexivity] end.
-Ltac SB_close B := first [SB_q_close B | SB_new_close B | SB_closed_close B | SB_reuse_close B | SB_answer_close B].
+Ltac SB_new_stale_close B :=
+  match goal with Hn : pend_find ?d (pend ?s) = None |- context [spend ?s ++ [(nsid ?s, ?p)]] =>
+    eapply (SB_new_stale s _ p d _ B); [wqp | exact Hn | psat_close | reflexivity | reflexivity | reflexivity | reflexivity] end.
+Ltac SB_forget_close B :=
+  match goal with Hn : pend_find ?d (pend ?s) = None, Hp : ps ?s ?p = Some (Closed (Some ?d)) |- _ =>
+    eapply (SB_forget s _ p d _ B); [wqp | exact Hn | psat_close | reflexivity | reflexivity | reflexivity | setters; lia] end.
+Ltac SB_close B := first [SB_new_stale_close B | SB_forget_close B | SB_q_close B | SB_new_close B | SB_closed_close B
+                         | SB_reuse_close B | SB_answer_close B].
 
 Lemma SB_on_shutdown s p : SB s -> SB (on_shutdown s p).
 Proof.
